@@ -47,14 +47,14 @@ def load_generated(model, name='G'):
     return ns[f'{name}Parser'], src
 
 
-def generated_parse(pcls, text, **settings):
+def generated_parse(pcls, text, _keep_parseinfo=None, **settings):
     import contextlib
     import io
     from tatsu.exceptions import FailedParse, ParseException
     try:
         with contextlib.redirect_stderr(io.StringIO()):
             v = pcls().parse(text, **settings)
-        return ('ok', impl.norm(v, settings.get('parseinfo', False)))
+        return ('ok', impl.norm(v, settings.get('parseinfo', False) if _keep_parseinfo is None else _keep_parseinfo))
     except FailedParse as e:
         return ('fail', type(e).__name__, getattr(e, 'pos', None))
     except ParseException as e:
@@ -87,8 +87,9 @@ def compare(m, label, shapes, model, pcls, text, sname, settings, sem_factory=No
     if sem_factory is not None:
         kw['semantics'] = sem_factory()
         kw2['semantics'] = sem_factory()
-    a = impl.parse(model, text, **kw)
-    b = generated_parse(pcls, text, **kw2)
+    # parse information is kept on both sides whenever it is there (a @@parseinfo directive switches it on)
+    a = impl.parse(model, text, _keep_parseinfo=True, **kw)
+    b = generated_parse(pcls, text, _keep_parseinfo=True, **kw2)
     m.add('evaluations', 2)
     m.add('transitions', 2)
     m.add('states')
